@@ -748,6 +748,13 @@ class Engine:
                     pass
         # local MIR definitions
         cands = self.prog.methods.get((head, meth), [])
+        if trait in ('From', 'Into', 'TryFrom') and cands:
+            # several impls of the same generic trait for one type (From<NodeId> for usize next to std's From<bool> for usize):
+            # keep the local ones whose parameter type is the trait's type argument
+            m_ = re.search(r' as (?:[A-Za-z_:]*::)?%s<(.+)>>::%s' % (trait, meth), callee or '')
+            if m_:
+                want = type_head(m_.group(1).strip())
+                cands = [(t, f) for (t, f) in cands if not f.params or type_head(f.params[0][1].split('::')[-1]) == want or type_head(f.params[0][1]) == want]
         if trait is not None:
             c2 = [f for (t, f) in cands if t == trait]
             if c2: return ('mir', c2[0])
@@ -765,6 +772,7 @@ class Engine:
         if name and name in self.prog.free: return ('mir', self.prog.free[name])
         b = BUILTIN_METHODS.get((trait, meth))
         if b: return ('builtin', b)
+        if head in BITS and trait == 'From' and meth == 'from': return ('builtin', bi_int_from)
         if head in BITS and meth in INT_METHODS: return ('builtin', bi_int_method)
         if head in BITS and meth == 'next_power_of_two': return ('builtin', bi_next_power_of_two)
         if head in BITS and meth == 'checked_next_power_of_two': return ('builtin', bi_checked_next_power_of_two)
@@ -1037,6 +1045,13 @@ def bi_split_at_mut(eng, st, args, dest, ret_bb, callee=''):
     okc = ok.v
     a = SubRef(r.cell, r.path, base, k); b = SubRef(r.cell, r.path, eng.binop('Add', base, k), eng.binop('Sub', ln, k))
     return ('fork', [(okc, ('value', Agg('tuple', [a, b]))), (neg(okc), ('panic', 'mid > len'))])
+
+def bi_int_from(eng, st, args, dest, ret_bb, callee=''):
+    """<uN as From<bool / narrower integer>>::from: lossless conversion"""
+    v = args[0]
+    m = re.match(r'^<([a-z0-9]+) as ', callee or '')
+    if not (isinstance(v, S) and m and m.group(1) in BITS): raise Unsupported('From::from %s' % callee)
+    return ('value', eng.cast(v, m.group(1), 'IntToInt'))
 
 def bi_vec_len(eng, st, args, dest, ret_bb, callee=''):
     return ('value', vec_of(eng, st, args[0]).len)
